@@ -44,6 +44,8 @@ impl<T> std::future::Future for SpawnHandle<T> {
 
 std::thread_local! {
     static TASKS: RefCell<Vec<shuttle::future::AbortHandle>> = const { RefCell::new(Vec::new()) };
+    /// Type name of the future of each task, parallel to `TASKS` (lets a harness cancel only tasks of one kind).
+    static KINDS: RefCell<Vec<&'static str>> = const { RefCell::new(Vec::new()) };
 }
 
 /// Simulated spawner.
@@ -62,6 +64,7 @@ impl Spawner {
     {
         let inner = shuttle::future::spawn(future);
         TASKS.with(|t| t.borrow_mut().push(inner.abort_handle()));
+        KINDS.with(|k| k.borrow_mut().push(std::any::type_name::<F>()));
         crate::verif::event("spawn", 0, 0);
         SpawnHandle { inner }
     }
@@ -83,6 +86,11 @@ impl Spawner {
     /// Number of tasks spawned so far in this execution; task indices are spawn order.
     pub fn verif_task_count() -> usize {
         TASKS.with(|t| t.borrow().len())
+    }
+
+    /// Type name of the future the task with the given spawn index runs.
+    pub fn verif_task_kind(index: usize) -> &'static str {
+        KINDS.with(|k| k.borrow().get(index).copied().unwrap_or(""))
     }
 
     /// Cancel the task with the given spawn index (what `JoinHandle::abort` / runtime shutdown does to it).
@@ -116,5 +124,6 @@ impl Spawner {
     /// Forget registered tasks (start of a new execution).
     pub fn verif_reset() {
         TASKS.with(|t| t.borrow_mut().clear());
+        KINDS.with(|k| k.borrow_mut().clear());
     }
 }
